@@ -30,8 +30,8 @@ BODIES = [
         {"name": "findProcess", "re": r"auto p = this->findProcess\(pid\);", "sub": "Process* const p = findProcess(pid);", "min": 1, "max": 1},
         {"name": "null test on the shared_ptr", "re": r"p\.get\(\) == nullptr", "sub": "p == NULL", "min": 1},
         MSG_THROW, SETSTATUS,
-        {"name": "loop contract of the EINTR retry loop (if present)", "re": r"while \(\(ret == -1\) && \(errno == EINTR\)\) \{",
-         "sub": ("while ((ret == -1) && (errno == EINTR))\n"
+        {"name": "loop contract of the EINTR retry loop (if present)", "re": r"while \((\(ret == -1\) && \(errno == \w+\))\) \{",
+         "sub": (r"while (\1)" "\n"
                  "  __CPROVER_assigns(ret, status, __CPROVER_object_whole(g_proc), __CPROVER_object_whole(g_reaped), g_threw, g_errno, g_in_handler)\n"
                  "  __CPROVER_loop_invariant(g_threw == 0 && g_in_handler == 0 && SPEC_TERMINATED(g_true_status[g_k]) && "
                  "((ret == pid && g_proc[g_k].isRunning && g_reaped[g_k] && status == g_true_status[g_k]) || (ret == -1 && CONSISTENT(g_k) && (g_errno == EINTR || g_reaped[g_k]))))\n"
